@@ -264,8 +264,8 @@ def mk_name(vc, k):
 @scenario("name.pack", functions=[DN + "pack"], candidates=LABEL_CANDS)
 def s_pack(vc):
     """RFC 1035 §3.1: a name is the sequence of its labels, each as length octet + octets, ended by a zero octet;
-    the empty name is the root (a single zero octet). Empty labels are refused. (All names with <= 3 dots.)"""
-    k = vc.case("labels", [0, 1, 2, 3, 4])
+    the empty name is the root (a single zero octet). Empty labels are refused. (All names with <= 2 dots.)"""
+    k = vc.case("labels", [0, 1, 2, 3])
     ls, name = mk_name(vc, k)
     out = vc.call(DN + "pack", name)
     if vc.branch(len_(name) == 0):
@@ -553,7 +553,11 @@ def check_header_fields(vc, msg, exp, tag):
         vc.ensure(f"{tag}.{k}", vc.eq(getattr(msg, k), v))
 
 
-@scenario("header.unpack_from", functions=[M + ".unpack_from"])
+HEADER_CANDS = [dict(buf=bytes([0x12, 0x34, fl >> 8, fl & 255]) + bytes(8) + tail, off=0, ts=5)
+                for fl in (0x0100, 0x0080, 0x8000, 0x7800, 0x0400, 0x0200, 0x0070, 0x000F, 0xFFFF, 0) for tail in (b"", b"xy")] + [dict(buf=b"\x00" * 5, off=0, ts=1)]
+
+
+@scenario("header.unpack_from", functions=[M + ".unpack_from"], candidates=HEADER_CANDS)
 def s_header_unpack(vc):
     buf = vc.sym_bytes("buf")
     off = vc.sym_int("off", lo=0)
@@ -884,7 +888,7 @@ def s_message_unpack(vc):
 ASSUMPTIONS = [
     "the idna codec (bytes.decode('idna') / str.encode('idna')) is library behaviour: uninterpreted functions in T1 (dec_idna, enc_idna, idna_dec_status, idna_encodable; ''.encode('idna') == b''), exercised for real in T2",
     "IDNA-canonical name = every label l is non-empty, contains no '.', encodes to 1..63 octets and dec_idna(enc_idna(l)) == l",
-    "T1 name/label loops are unrolled (names of <= 3-4 labels; split('.') of names with <= 4 labels; sections of <= 2 entries); composition to arbitrary sizes is by the induction described in EXPLANATION and checked bounded in T2",
+    "T1 name/label loops are unrolled (label loops: names of <= 3-4 labels; pack: names with <= 3 labels; sections of <= 2 entries); composition to arbitrary sizes is by the induction described in EXPLANATION and checked bounded in T2",
     "message.unpack_from.framing: RDATA lengths 0 and 3, header fixed (header fields are covered by header.unpack_from); message.unpack_from.total: authority/additional counts 0 (same code path as answers)",
     "a | b on two symbolic ints is modelled as a + b - (a & b) with (a & b) = 0 derived only for disjoint bit ranges (sound over-approximation)",
     "summaries used in message-level scenarios are the contracts proved in the name-level scenarios (name reader: returns (text, length >= 1) or raises struct.error; decompress: returns bytes)",
@@ -893,7 +897,7 @@ EXPLANATION = (
     "T1 proves the mechanisms for all inputs: the label step (_unpack_label_into: exact consumption, progress >= 1 octet inside the buffer, "
     "only struct.error except the recorded idna UnicodeError class), the two label loops over an abstract step (consecutive offsets, join, end offset, "
     "pointer handling), one activation of the compressed reader with the recursive call abstracted (the offset is marked in the cache before the single "
-    "recursive call, re-entry is a parse error: the termination measure), pack (exact RFC 1035 framing for names with <= 4 labels), the label round trip "
+    "recursive call, re-entry is a parse error: the termination measure), pack (exact RFC 1035 framing for names with <= 3 labels), the label round trip "
     "dec(enc(l)) read back exactly, header flag packing/unpacking against the RFC bit layout over the full field ranges plus the arithmetic glue lemma, "
     "message framing in both directions with name handling abstracted. The composition (round trip of whole messages with any number of labels/records, "
     "totality of DNSMessage.unpack on arbitrary bytes, re-encoding of decoded messages) is an induction over these lemmas that is not mechanised: it is "
@@ -951,14 +955,14 @@ def bounded(tier, seed):
     listed = set(_listed_types())
     # ---------------- A: encode -> decode
     alpha = [0x00, 0x01, 0x0c, 0x3f, 0x40, 0xc0, 0xff]
-    rdatas = [bytes(t) for n in range(0, 3 if quick else 4) for t in itertools.product(alpha, repeat=n)]
+    rdatas = [bytes(t) for n in range(0, 4) for t in itertools.product(alpha, repeat=n)]
     rdatas += [b"\x03www\x07example\x03com\x00", b"\x00\x0a\x04mail\x00", bytes(range(16)), b"\xc3\xa4\xc3\xb6", b"\x02\xc0\x0c", b"\xc0\x0c\x00\x01"]
     types_ = [1, 2, 5, 6, 12, 13, 15, 16, 28, 33, 41, 65, 99, 255, 65535]
     hdrs = [dict(id=i, query=qr, op=op, aa=aa, tc=tc, rd=rd, ra=ra, z=z, rcode=rc)
             for i in (0, 1, 0x1234, 65535) for qr in (True, False) for op in (0, 5, 15) for aa in (False, True) for tc in (False, True)
             for rd in (False, True) for ra in (False, True) for z in (0, 7) for rc in (0, 3, 15)]
     rnd.shuffle(hdrs)
-    hdrs = hdrs[:60 if quick else 600]
+    hdrs = hdrs[:400 if quick else len(hdrs)]
     for h in hdrs:
         m = _mk(**h, q=[dns.Question(rnd.choice(T2_NAMES), rnd.choice(types_), rnd.choice([1, 3, 255, 65535]))])
         b.case(("A.header", tuple(h.items())), nontrivial=True)
@@ -967,7 +971,7 @@ def bounded(tier, seed):
             b.fail("c25.encode_decode_same_message", {"message": repr(m)}, f"decoded: {got!r}")
     combos = [(n, t, rd) for n in T2_NAMES for t in types_ for rd in rdatas]
     rnd.shuffle(combos)
-    combos = combos[:2500 if quick else 40000]
+    combos = combos[:12000 if quick else 60000]
     for n, t, rd in combos:
         ttl = rnd.choice([0, 1, 60, 2 ** 31, 2 ** 32 - 1])
         cls = rnd.choice([1, 255, 65535])
@@ -1014,13 +1018,11 @@ def bounded(tier, seed):
     tails_alpha = [0x00, 0x01, 0x02, 0x03, 0x0c, 0x3f, 0x40, 0x61, 0x2e, 0xc0, 0xff]
     maxlen = 3 if quick else 4
     tails = [bytes(t) for n in range(0, maxlen + 1) for t in itertools.product(tails_alpha, repeat=n)]
-    if quick:
-        rnd.shuffle(tails)
-        tails = tails[:900]
+    rnd.shuffle(tails)
     for t in tails:
         check_decode(_hdr(q=1) + t + b"\x00\x01\x00\x01", ("q-name-tail", t.hex()))
         check_decode(_hdr(q=1) + t, ("q-raw-tail", t.hex()))
-    for t in tails[:300 if quick else 3000]:
+    for t in tails[:700 if quick else 5000]:
         # answer with compressed owner and TXT / MX / A rdata built from the tail
         for typ in (1, 15, 16):
             rd = t
@@ -1040,6 +1042,9 @@ def bounded(tier, seed):
     for lab in [b"xn--", b"xn--a", b"xn--0", b"xn--a-", b"xn--mnchen-3ya", b"XN--MNCHEN-3YA", b"xn--bcher-kva", b".", b"a.", b".a", b"a.b", b"a..b", b"\xe4", b"\xc3\xa4", b" ", b"\x00", b"a" * 63, b"xn--" + b"a" * 59]:
         check_decode(_hdr(q=1) + bytes([len(lab)]) + lab + b"\x03com\x00" + b"\x00\x01\x00\x01", ("label", lab.hex()))
         check_decode(_hdr(q=1) + bytes([len(lab)]) + lab + b"\x00" + b"\x00\x01\x00\x01", ("single-label", lab.hex()))
+    # label length octets at the boundaries of the three ranges (RFC 1035 §4.1.4: 00xxxxxx label, 11xxxxxx pointer, 01/10 reserved)
+    for n in (62, 63, 64, 65, 127, 128, 191):
+        check_decode(_hdr(q=1) + bytes([n]) + b"a" * n + b"\x00" + b"\x00\x01\x00\x01", ("label-length", n))
     # pointers: loops, chains, pointer to root, forward pointers, pointer into header
     check_decode(_hdr(q=1) + b"\xc0\x0c" + b"\x00\x01\x00\x01", ("pointer-loop", "self"))
     check_decode(_hdr(q=1) + b"\xc0\x0e" + b"\xc0\x0c" + b"\x00\x01\x00\x01", ("pointer-loop", "two"))
